@@ -50,3 +50,18 @@ Print Assumptions c06_semver_refines.
 Print Assumptions c06_unset_contributes_nothing.
 Print Assumptions c06_tier_noninterference.
 Print Assumptions c06_pep440_refines.
+
+(* THE TIE OF THE MODEL'S PRESETS TO THE SOURCE: Gen/TablesSrc.v is regenerated from /repo by tools/tables2coq.py on every run *)
+From ZV Require Import Render Cli TablesSrc TablesTie.
+(* src/schema/presets.rs translated: every preset, on every variable state, stands for the schema the model uses; its name is read to the same preset;
+   the schema passes the placement validation (the unwrap()s of the builders cannot fail) *)
+Theorem c06_presets_as_in_source : forall p vs, src_schema_with_zerv p vs = Some (schema_with_zerv (model_of p) vs).
+Proof. exact schema_with_zerv_as_source. Qed.
+Theorem c06_preset_names_as_in_source :
+  map (fun e => preset_of_name (fst e)) src_preset_names = map (fun e => Some (model_of (snd e))) src_preset_names /\ forall p, In p (map snd src_preset_names).
+Proof. split; [exact preset_names_as_source|exact every_preset_named]. Qed.
+Theorem c06_preset_schemas_valid : forall p vs s, src_schema_with_zerv p vs = Some s -> schema_validate s = true.
+Proof. exact preset_schemas_valid. Qed.
+Print Assumptions c06_presets_as_in_source.
+Print Assumptions c06_preset_names_as_in_source.
+Print Assumptions c06_preset_schemas_valid.
